@@ -97,6 +97,30 @@ pub fn gen_text(r: &mut Rng, max_len: usize) -> String {
     t
 }
 
+/// A text assembled from the model's own strings (n-grams, dictionary words, tag tokens, tag n-grams) and random
+/// characters, so that entries and in particular tag n-grams next to tagged tokens actually occur.
+pub fn gen_text_from_model(r: &mut Rng, m: &ModelData, max_len: usize) -> String {
+    let mut pieces: Vec<String> = vec![];
+    pieces.extend(m.char_ngram_model.0.iter().map(|d| d.ngram.clone()));
+    pieces.extend(m.dict_model.0.iter().map(|d| d.word.clone()));
+    for t in &m.tag_models {
+        // tag tokens several times: they must be segmented as tokens to be tagged
+        pieces.push(t.token.clone());
+        pieces.push(t.token.clone());
+        pieces.extend(t.char_ngram_model.0.iter().map(|d| d.ngram.clone()));
+    }
+    let mut out = String::new();
+    let target = 1 + r.below(max_len);
+    while out.chars().count() < target {
+        if !pieces.is_empty() && r.below(3) != 0 {
+            out.push_str(&pieces[r.below(pieces.len())]);
+        } else {
+            out.push(ALPHABET[r.below(ALPHABET.len())]);
+        }
+    }
+    out
+}
+
 pub fn gen_model(r: &mut Rng, with_tags: bool) -> ModelData {
     // windows: mostly small, sometimes large (>= 8: entries longer than the fixed length AND longer than the 7-slot padding)
     let cw = if r.below(4) == 0 { 6 + r.below(6) as u8 } else { 1 + r.below(5) as u8 };
@@ -191,7 +215,14 @@ pub fn gen_model(r: &mut Rng, with_tags: bool) -> ModelData {
             let ties = r.below(2) == 0; // small weights => exact ties between candidates
             let mut cg: Vec<TagNgramData<String>> = vec![];
             for _ in 0..r.below(4) {
-                let g: String = { let l = 1 + r.below(2); rand_chars(r, l) }.into_iter().collect();
+                // sometimes a proper suffix or a one-character extension of an earlier tag n-gram (suffix chains whose tag
+                // weights at the same relative position must be ADDED by the predictor's weight merger)
+                let g: String = if !cg.is_empty() && r.below(3) == 0 {
+                    let base: Vec<char> = cg[r.below(cg.len())].ngram.chars().collect();
+                    if base.len() >= 2 && r.below(2) == 0 { base[1..].iter().collect() } else { let mut x = rand_chars(r, 1); x.extend(base); x.into_iter().collect() }
+                } else {
+                    { let l = 1 + r.below(2); rand_chars(r, l) }.into_iter().collect()
+                };
                 if cg.iter().any(|d| d.ngram == g) { continue; }
                 let mut ws: Vec<TagWeight> = vec![];
                 for rel in 0..=cw {
@@ -203,7 +234,12 @@ pub fn gen_model(r: &mut Rng, with_tags: bool) -> ModelData {
             }
             let mut tg: Vec<TagNgramData<Vec<u8>>> = vec![];
             for _ in 0..r.below(3) {
-                let g: Vec<u8> = (0..1 + r.below(2)).map(|_| 1 + r.below(6) as u8).collect();
+                let g: Vec<u8> = if !tg.is_empty() && r.below(3) == 0 {
+                    let base = tg[r.below(tg.len())].ngram.clone();
+                    if base.len() >= 2 && r.below(2) == 0 { base[1..].to_vec() } else { let mut x = vec![1 + r.below(6) as u8]; x.extend(base); x }
+                } else {
+                    (0..1 + r.below(2)).map(|_| 1 + r.below(6) as u8).collect()
+                };
                 if tg.iter().any(|d| d.ngram == g) { continue; }
                 let mut ws: Vec<TagWeight> = vec![];
                 for rel in 0..=tw {
